@@ -161,6 +161,11 @@ func (a *Agent) handleBindingRequestWithCustomHandler(
 			// Lite agents do not send triggered checks, so a handler-approved
 			// custom selection must put the pair in the valid list directly.
 			pair.state = CandidatePairStateSucceeded
+		} else if pair.state != CandidatePairStateSucceeded {
+			// A full agent only carries application data over a pair whose own
+			// connectivity check has succeeded: the handler can ask again on a later
+			// Binding request, once the (triggered) check has been answered.
+			return
 		}
 		a.setSelectedPair(pair)
 	}
